@@ -102,7 +102,7 @@ def gen_plus(tier, rng):
     ts = list(all_times())
     if tier == "quick":
         for t in ts[::7]:
-            for d in list(range(-2880, 2881, 97)) + [-2881, 2881, 0, 1, -1, 1440, -1440, 2879, -2879]:
+            for d in list(range(-2880, 2881, 97)) + [-2881, 2881, 2880, -2880, 0, 1, -1, 1440, -1440, 2879, -2879, 4319, -4319, 4320, -4320]:
                 yield "plus %s %d" % (hx(t), d)
         for t in ts[::61]:
             yield "plus %s %d" % (hx(to12(t)), rng.randrange(-3000, 3000))
